@@ -190,7 +190,11 @@ func judge(c *Case, obs []CallObs, res *lib.Result) {
 	tags[fmt.Sprintf("running-nodes:%d", min(nn, 12))] = true
 	tags[fmt.Sprintf("depth:%d", depth)] = true
 	for _, g := range c.Forest {
-		if g.Dag {
+		if g.Chain {
+			tags["mode:chain"] = true
+		} else if g.Wf {
+			tags["mode:workflow"] = true
+		} else if g.Dag {
 			tags["mode:dag"] = true
 		} else {
 			tags["mode:pregel"] = true
@@ -242,9 +246,14 @@ func judge(c *Case, obs []CallObs, res *lib.Result) {
 			sel = selRan(o)
 		}
 		opts := resolve(cl)
-		if cl.Stream {
+		switch {
+		case cl.InStr && cl.Stream:
+			tags["call:transform"] = true
+		case cl.InStr:
+			tags["call:collect"] = true
+		case cl.Stream:
 			tags["call:stream"] = true
-		} else {
+		default:
 			tags["call:invoke"] = true
 		}
 		tags["class:"+o.Class] = true
